@@ -1096,6 +1096,13 @@ def _k2(ctx: Context) -> None:
                 defs = [(dn, d) for dn, d in du.reaching(node.id, value.id) if d.kind == "assign" and not d.path]
                 if defs and len(defs) == len(t[1]):
                     sites = [(f, cfg, cfg.nodes[dn], strip_sites(T.of(cfg, cfg.nodes[dn], d.value)), None) for dn, d in defs]
+            elif t[0] == "phi" and isinstance(value, ast.Call) and isinstance(value.func, ast.Attribute) and value.func.attr == "format" and isinstance(value.func.value, ast.Name):
+                # `template.format(h)` with the template chosen by an if/else before: the form is decided where the template
+                # is chosen - each choice is a form site, the i-th alternative of the formatted value belongs to the i-th choice
+                du = T.du(cfg)
+                defs = [(dn, d) for dn, d in du.reaching(node.id, value.func.value.id) if d.kind == "assign" and not d.path]
+                if defs and len(defs) == len(t[1]) and len({strip_sites(T.of(cfg, cfg.nodes[dn], d.value)) for dn, d in defs}) == len(defs):
+                    sites = [(f, cfg, cfg.nodes[dn], alt, None) for (dn, d), alt in zip(defs, t[1])]
             if t[0] == "call" and t[1][0] == "glob" and t[1][1] in ctx.prog.functions and not t[3]:
                 g = ctx.prog.functions[t[1][1]]
                 if not g.is_async and not g.is_generator and not isinstance(g.node, ast.Lambda) and len(t[2]) <= len(g.pos_params):
